@@ -177,7 +177,7 @@ func (s *Scanner) Length() uint {
 		if lex.Type() == lexeme.EndTop {
 			// Found character after the end of the schema and spaces.
 			// Example: char "s" in "{} some text"
-			length = uint(lex.End()) - 1
+			// length already holds the end of the last lexeme of the schema.
 			break
 		}
 
